@@ -14,4 +14,4 @@ Definition z_init := @init Z.
 Definition z_list_step := @list_step Z Z.eqb zsort.
 Definition z_list_getslice := @list_getslice Z.
 
-Extraction "smartlist_model.ml" z_sl_step z_sl_getslice z_read z_init z_list_step z_list_getslice.
+Extraction "smartlist_model.ml" Z.succ N.succ Nat.succ z_sl_step z_sl_getslice z_read z_init z_list_step z_list_getslice.
